@@ -19,7 +19,7 @@ func init() {
 		Level:     "exploration",
 		Technique: "bounded exhaustive input enumeration (all byte strings over an 8-atom alphabet in every field position; all small table shapes) rendered by the real code and parsed back by an independent strict RFC 4180 state machine",
 		Rule: "family field-bytes: every string of <=3 (thorough <=4) atoms over {a, quote, comma, CR, LF, NUL, e-acute, invalid byte 0xff} in each of 7 field positions (only/first/last, header/body, padded short row), thorough also all pairs of two fields varying together (<=2 atoms each); " +
-			"family shapes: every shape with header none/0..3 cells (added first or last), <=2 rows (thorough <=3) each a separator or 0..3 cells, every cell text drawn from {serial, empty, quote-comma-newline}; " +
+			"family render-after-failed-render: a long-lived wrapper whose RenderTo failed at any write index/mode, then rendered again; family shapes: every shape with header none/0..3 cells (added first or last), <=2 rows (thorough <=3) each a separator or 0..3 cells, every cell text drawn from {serial, empty, quote-comma-newline}; " +
 			"non-trivial = the varied text needs quoting/escaping or the shape is ragged/has zero-cell rows/separators/no header; distinct by (position,text) or (shape,texts)",
 		Assumptions: []string{"record terminator LF or CRLF both accepted by the parser (the code emits LF)", "field separator is the default comma"},
 		QuickBudget: 90 * time.Second, ThoroughBudget: 15 * time.Minute,
@@ -89,6 +89,10 @@ func c05Check(x *X, c *Chooser, g *Grid, extraTags []string) {
 		x.FailSite("C05.no_panic", append(tags, "panic"), site, "csv Render panicked: %v on %s", val, g)
 		return
 	}
+	c05Judge(x, g, tags, out, err)
+}
+
+func c05Judge(x *X, g *Grid, tags []string, out string, err error) {
 	ncols := g.NCols()
 	if ncols == 0 {
 		x.Clause("C05.no_columns_refused")
@@ -170,7 +174,42 @@ var c05Positions = []struct {
 	}},
 }
 
+// c05CheckOutput applies the parse-back oracle to an output obtained elsewhere.
+func c05AfterFailure(x *X) {
+	grids := []*Grid{
+		{HasHeader: true, Header: []string{"h1", "h2"}, Rows: []GridRow{{Cells: []string{"a", `q"x`}}, {Sep: true}, {Cells: []string{"c"}}}},
+		{Rows: []GridRow{{Cells: []string{"a,b", "c\nd", ""}}, {Cells: []string{}}}},
+	}
+	x.Explore("render-after-failed-render", ExploreOpts{ShardDepth: 2, Bound: "2 tables x every Write index k x {fail from k on, fail only at k, partial write + error} on a long-lived wrapper, then a successful Render judged by the full oracle"}, func(c *Chooser) {
+		g := grids[c.Choose(len(grids))]
+		probe := csv.New()
+		g.Build(probe)
+		fw := &faultWriter{}
+		probe.RenderTo(fw)
+		if fw.calls == 0 {
+			c.Choose(1)
+			return
+		}
+		k := 1 + c.Choose(fw.calls)
+		mode := 1 + c.Choose(3)
+		t := csv.New()
+		g.Build(t)
+		c.Logf("table %s: RenderTo(writer failing at call %d, mode %d), then Render() on the same wrapper", g, k, mode)
+		x.Transition(2)
+		x.Nontrivial(fmt.Sprint(g.ShapeKey(), k, mode))
+		tags := append(g.Tags(), "render_after_failed_render")
+		var out string
+		var err error
+		if p, val, site := Safe(func() { t.RenderTo(&faultWriter{mode: mode, k: k}); out, err = t.Render() }); p {
+			x.FailSite("C05.no_panic", append(tags, "panic"), site, "csv panicked: %v", val)
+			return
+		}
+		c05Judge(x, g, tags, out, err)
+	})
+}
+
 func runC05(x *X) {
+	c05AfterFailure(x)
 	maxLen := x.Pick(3, 4)
 	x.Explore("field-bytes", ExploreOpts{ShardDepth: 2, Bound: fmt.Sprintf("7 positions x all strings of <=%d atoms over %d atoms", maxLen, len(c05Atoms))}, func(c *Chooser) {
 		p := c05Positions[c.Choose(len(c05Positions))]
